@@ -1075,12 +1075,21 @@ fn path_case(ctx: &mut Ctx, cubic: bool) {
         let close = rng.chance(1, 2);
         let p_lead: Point<f32> = Gen::Uniform.point(rng);
         let p_trail: Point<f32> = Gen::Uniform.point(rng);
+        // history of the adapter object: built at another tolerance (coarser than the curve is
+        // large, or finer), then `set_tolerance(tol)` before the curve is issued; the result must
+        // be the one of an adapter built at `tol` (the model and the oracle only know `tol`)
+        let retol: Option<f32> = match rng.below(4) {
+            0 => Some((size_of(&pts) as f32).max(1e-3) * (2.0 + rng.below(64) as f32)),
+            1 => Some(tol * 0.125),
+            _ => None,
+        };
         let mut args = Out::new();
         for p in &pts {
             args.p(*p);
         }
         args.f(tol);
-        let tag = format!("{} {} lead{} trail{} close{}", if cubic { "pcubic" } else { "pquad" }, shape_name(sh), lead as u8, trail as u8, close as u8);
+        let tag = format!("{} {} lead{} trail{} close{} {}", if cubic { "pcubic" } else { "pquad" }, shape_name(sh), lead as u8, trail as u8, close as u8,
+            match retol { None => "built-at-tol", Some(t0) if t0 > tol => "set_tolerance-from-coarser", Some(_) => "set_tolerance-from-finer" });
         (args, tag, move || {
             let mut o = Out::new();
             let mut orc = Oracle::new();
@@ -1109,7 +1118,10 @@ fn path_case(ctx: &mut Ctx, cubic: bool) {
             // 1. iterator adapter
             let ev_it: Vec<PathEvent> = src.iter().flattened(tol).take(ITER_CAP).collect();
             // 2. builder adapter
-            let mut fb = Path::builder().flattened(tol);
+            let mut fb = Path::builder().flattened(retol.unwrap_or(tol));
+            if retol.is_some() {
+                fb.inner_mut().set_tolerance(tol);
+            }
             if lead {
                 fb.begin(p_lead);
                 fb.line_to(from);
